@@ -940,6 +940,130 @@ pub fn run(tier: Tier) -> Run {
         }
         run.outcome("composite_constants_by_count", n);
     }
+    // ---- ids do not matter: the same small module (two int types, two constants, a vector of the second type, a composite,
+    //      an operation using all of them) lifted with its ids spread out by every power of two and by the multipliers /
+    //      primes hash functions use gives the SAME types, constants and functions as with consecutive ids (tokens are
+    //      positions; raw ids in operations are compared after mapping them back)
+    {
+        let render = |ids: [u32; 8]| -> Result<String, String> {
+            let [ta, tb, tv, ca, cb, cc, f, l] = ids;
+            let insts = vec![
+                Inst::new("Capability", None, None, vec![Arg::Enum("Capability", 1)]),
+                Inst::new("MemoryModel", None, None, vec![Arg::Enum("AddressingModel", 0), Arg::Enum("MemoryModel", 1)]),
+                Inst::new("TypeInt", None, Some(ta), vec![Arg::Lit32(32), Arg::Lit32(0)]),
+                Inst::new("TypeInt", None, Some(tb), vec![Arg::Lit32(32), Arg::Lit32(1)]),
+                Inst::new("TypeVector", None, Some(tv), vec![Arg::IdRef(tb), Arg::Lit32(2)]),
+                Inst::new("Constant", Some(ta), Some(ca), vec![Arg::Lit32(7)]),
+                Inst::new("Constant", Some(tb), Some(cb), vec![Arg::Lit32(0xFFFF_FFF9)]),
+                Inst::new("ConstantComposite", Some(tv), Some(cc), vec![Arg::IdRef(cb), Arg::IdRef(cb)]),
+                Inst::new("Function", Some(ta), Some(f), vec![Arg::Mask("FunctionControl", 0), Arg::IdRef(ta)]),
+                Inst::new("Label", None, Some(l), vec![]),
+                Inst::new("Return", None, None, vec![]),
+                Inst::new("FunctionEnd", None, None, vec![]),
+            ];
+            let mut words = model::header(0x0001_0300, 0, 0xFFFF_FFFF);
+            for x in &insts {
+                words.extend(enc(x));
+            }
+            match lift_words(&words) {
+                Err(p) => Err(format!("panic: {}", p)),
+                Ok(Err(e)) => Err(e),
+                Ok(Ok(m)) => Ok(format!("{:?} | {:?} | {:?}", m.types, m.constants, m.functions.iter().map(|f| (f.control, f.result.index(), f.parameters.len())).collect::<Vec<_>>())),
+            }
+        };
+        let base = render([11, 12, 13, 14, 15, 16, 17, 18]);
+        if let Err(e) = &base {
+            run.machinery(format!("the id-distance module does not lift on this tree: {}", e));
+        }
+        let mut deltas: Vec<u32> = (1..32).map(|k| 1u32 << k).collect();
+        deltas.extend([2654435769, 2971215073, 1640531527, 0x85EB_CA6B, 0xC2B2_AE35, 16777619, 0x811C_9DC5 - 20, 65599, 5381, 31, 37, 131, 1_000_003, 0x0100_0193, 40503, 2246822519, 3266489917, 668265263, 374761393]);
+        let mut n = 0u64;
+        for d in deltas {
+            for (pn, ids) in [
+                ("types", [11, 11u32.wrapping_add(d), 13, 14, 15, 16, 17, 18]),
+                ("constants", [11, 12, 13, 14, 14u32.wrapping_add(d), 16, 17, 18]),
+                ("type-and-constant", [11, 12, 13, 11u32.wrapping_add(d), 15, 16, 17, 18]),
+                ("vector-and-int", [11, 12, 12u32.wrapping_add(d), 14, 15, 16, 17, 18]),
+            ] {
+                let mut u = ids.to_vec();
+                u.sort();
+                u.dedup();
+                if u.len() != 8 || ids.contains(&0) {
+                    continue;
+                }
+                n += 1;
+                let got = render(ids);
+                if got != base {
+                    run.add(viol(format!("C18:ids-spread:{}", pn), format!("the same module with two {} ids {} apart lifts to {:?}; with consecutive ids to {:?}", pn, d, got.map(|x| x.chars().take(300).collect::<String>()), base.clone().map(|x| x.chars().take(300).collect::<String>())), json!({"kind": "c18-ids", "ids": ids, "delta": d})));
+                    break;
+                }
+            }
+        }
+        run.outcome("id_distance_modules", n);
+    }
+    // ---- a conversion that FAILS (no memory model / an instruction outside the subset / an undeclared type), then a good
+    //      module converted on the same thread: the second result is what that module gives in a fresh process state
+    {
+        let good = |shift: u32| -> Vec<u32> {
+            let insts = vec![
+                Inst::new("Capability", None, None, vec![Arg::Enum("Capability", 1)]),
+                Inst::new("MemoryModel", None, None, vec![Arg::Enum("AddressingModel", 0), Arg::Enum("MemoryModel", 1)]),
+                Inst::new("TypeVoid", None, Some(10 + shift), vec![]),
+                Inst::new("TypeInt", None, Some(11 + shift), vec![Arg::Lit32(32), Arg::Lit32(1)]),
+                Inst::new("Constant", Some(11 + shift), Some(12 + shift), vec![Arg::Lit32(5)]),
+                Inst::new("Function", Some(10 + shift), Some(13 + shift), vec![Arg::Mask("FunctionControl", 0), Arg::IdRef(10 + shift)]),
+                Inst::new("Label", None, Some(14 + shift), vec![]),
+                Inst::new("IAdd", Some(11 + shift), Some(15 + shift), vec![Arg::IdRef(12 + shift), Arg::IdRef(12 + shift)]),
+                Inst::new("Return", None, None, vec![]),
+                Inst::new("FunctionEnd", None, None, vec![]),
+            ];
+            let mut w = model::header(0x0001_0300, 0, 1000);
+            for x in &insts {
+                w.extend(enc(x));
+            }
+            w
+        };
+        let bads: Vec<(&str, Vec<Inst>)> = vec![
+            ("no memory model", vec![Inst::new("Capability", None, None, vec![Arg::Enum("Capability", 1)]), Inst::new("TypeVoid", None, Some(10), vec![]), Inst::new("TypeInt", None, Some(11), vec![Arg::Lit32(32), Arg::Lit32(1)])]),
+            ("undeclared result type", vec![Inst::new("Capability", None, None, vec![Arg::Enum("Capability", 1)]), Inst::new("MemoryModel", None, None, vec![Arg::Enum("AddressingModel", 0), Arg::Enum("MemoryModel", 1)]), Inst::new("TypeVoid", None, Some(10), vec![]), Inst::new("TypeInt", None, Some(11), vec![Arg::Lit32(32), Arg::Lit32(1)]), Inst::new("Constant", Some(77), Some(12), vec![Arg::Lit32(5)])]),
+            ("an instruction outside the subset", vec![Inst::new("Capability", None, None, vec![Arg::Enum("Capability", 1)]), Inst::new("MemoryModel", None, None, vec![Arg::Enum("AddressingModel", 0), Arg::Enum("MemoryModel", 1)]), Inst::new("TypeVoid", None, Some(10), vec![]), Inst::new("TypeInt", None, Some(11), vec![Arg::Lit32(32), Arg::Lit32(1)]), Inst::new("Function", Some(10), Some(13), vec![Arg::Mask("FunctionControl", 0), Arg::IdRef(10)]), Inst::new("Label", None, Some(14), vec![]), Inst::new("FunctionCall", Some(11), Some(15), vec![Arg::IdRef(13)]), Inst::new("Return", None, None, vec![]), Inst::new("FunctionEnd", None, None, vec![])]),
+        ];
+        let show = |w: &[u32]| -> String {
+            match lift_words(w) {
+                Err(p) => format!("panic: {}", p),
+                Ok(Err(e)) => format!("Err {}", e),
+                Ok(Ok(m)) => format!("{:?} | {:?} | {:?} | {}", m.types, m.constants, m.ops, m.functions.len()),
+            }
+        };
+        // on a thread of its own, so that "the same thread" is certain and nothing else has converted anything on it
+        let results: Vec<(String, u32, String, String)> = std::thread::spawn(move || {
+            let mut out = vec![];
+            for shift in [0u32, 100] {
+                let alone = show(&good(shift));
+                for (bn, bi) in &bads {
+                    let mut w = model::header(0x0001_0300, 0, 1000);
+                    for x in bi {
+                        w.extend(enc(x));
+                    }
+                    let _ = show(&w);
+                    out.push((bn.to_string(), shift, show(&good(shift)), alone.clone()));
+                }
+            }
+            out
+        })
+        .join()
+        .unwrap_or_default();
+        run.outcome("good_after_failed_conversions", results.len() as u64);
+        if results.iter().any(|r| r.3.starts_with("Err") || r.3.starts_with("panic")) || results.is_empty() {
+            run.machinery("the good module of the failed-then-good family does not lift on this tree".to_string());
+        }
+        for (bn, shift, after, alone) in results {
+            if after != alone {
+                run.add(viol("C18:after-a-failed-conversion", format!("a good module (ids from {}) converted after a conversion that failed ({}) on the same thread gives {} ; alone {}", 10 + shift, bn, after.chars().take(300).collect::<String>(), alone.chars().take(300).collect::<String>()), json!({"kind": "c18-after-failure", "failed": bn, "id_shift": shift})));
+                break;
+            }
+        }
+    }
     // ---- every capability x every addressing model x every memory model in front of one fixed body with an unsigned, a
     //      signed and a float constant and one operation: what is lifted from the body must not depend on the
     //      module-level declarations (and those are carried over as they are)
